@@ -112,6 +112,19 @@ Section Sep.
       assert (C : s_cache (on_wep s id cs) = s_cache s) by (apply (@keepf_on_wep _ _ ri_block s_cache); auto).
       now rewrite C.
   Qed.
+
+  Lemma cc'_fstep : forall s x, inv BK s -> fhop_ok BK x -> cc' s -> cc' (apply_fop true s x).
+  Proof.
+    intros s [force o] I OK H'. simpl in OK. destruct force; [|now apply cc'_step].
+    destruct o as [c v|c v|n v|id cs]; cbn [apply_fop]; try (now apply cc'_step).
+    - eapply cc'_frame; [exact (frame_trans _ _ _ (frame_on_node_forced true s n v) (frame_flush _))|exact H'].
+    - eapply cc'_frame; [apply frame_flush|]. intros k n F.
+      assert (B : ri_block (tget (s_trie (on_wep_forced s id cs)) k) = ri_block (tget (s_trie s) k))
+        by (apply (@keepf_on_wep_forced _ _ ri_block s_cache); auto).
+      rewrite B in F. destruct (H' k n F) as (key & l & A & In'). exists key, l. split; [|exact In'].
+      assert (C : s_cache (on_wep_forced s id cs) = s_cache s) by (apply (@keepf_on_wep_forced _ _ ri_block s_cache); auto).
+      now rewrite C.
+  Qed.
 End Sep.
 
 (* ---------------------------------------------------------------- generic key-uniqueness facts *)
